@@ -84,6 +84,8 @@ def perturb(v, nested=True):
     elif isinstance(v, int):
         out += [v - 1, v + 1]
     elif isinstance(v, float):
+        if v in (float("inf"), float("-inf")):
+            out += [-v, 1.0, 1.7976931348623157e308 if v > 0 else -1.7976931348623157e308, 0.0]
         if v == v and v not in (float("inf"), float("-inf")):
             out += [v - 1.0, v + 1.0, v - 0.2, v + 0.2]
             # far outside the relative tolerance, yet tiny in absolute terms
